@@ -315,6 +315,8 @@ class H:
                 self.race_prep(a[1], exp)
             elif op == "tfcrash":
                 await self.tfcrash(a[1], exp)
+            elif op == "bglookup":
+                await self.bglookup(a[1], exp)
             elif op == "raise":
                 e = self.tag.make(a[1])
                 sim.log("raise", where="act", ctx=exp, exc=describe(e))
@@ -365,6 +367,37 @@ class H:
                 sim.log("body_end", ctx=fid, how="return", exc=None, closed=c.closed)
 
         await owner.start_service_task(body, name, teardown_action=spec.get("action", "cancel"))
+
+    async def outsider(self, pauses: list) -> None:
+        for p in pauses:
+            await self.sim.pause(p[1], p[2])
+            self.at(None, "outsider")
+
+    async def bglookup(self, spec: dict, exp: str | None) -> None:
+        """A task living outside the block is in the middle of a (slow, uninterruptible)
+        lookup in the block's context when the block is left."""
+        ctx = self.ctxs.get(exp) if exp else None
+        if ctx is None or self.bg_tg is None:
+            return
+        sim = self.sim
+        nm = "bg_" + spec["id"]
+
+        async def slow() -> Res2:
+            with CancelScope(shield=True):
+                await sim.pause(0, spec.get("dur", 1.0))
+            return Res2()
+
+        ctx.add_resource_factory(slow, nm, types=[Res2])
+
+        async def looker() -> None:
+            try:
+                await ctx.get_resource(Res2, nm)
+            except BaseException as e:  # noqa: BLE001
+                if is_cancel(e):
+                    raise
+
+        self.bg_tg.start_soon(looker, name="w:bglookup_" + spec["id"])
+        await sim.pause(*spec.get("gap", (1, 0.0)))
 
     async def tfcrash(self, spec: dict, exp: str | None) -> None:
         """A task of a task factory crashes; the factory's exception handler is called in
@@ -931,7 +964,13 @@ class H:
             if key not in self.callables:
                 return
             f, pexc = self.callables[key]
-            ctx.add_teardown_callback(f, pexc)
+            if spec.get("as_res") and not pexc:
+                # ... this time as the teardown callback of a resource (two resources
+                # sharing one clean-up callable: it runs once for each)
+                self.nfresh += 1
+                ctx.add_resource(Res(spec["again"]), f"again{self.nfresh}", teardown_callback=f)
+            else:
+                ctx.add_teardown_callback(f, pexc)
             self.sim.log("reg", ctx=cid, cb=spec["again"], route="again")
             return
         f = self.make_cb(spec, cid)
@@ -1057,7 +1096,19 @@ def make_main(plan: dict):
                 sim.user["scope"] = scope
                 try:
                     h.at(None, "start")
-                    if plan.get("bg"):
+                    if plan.get("outsider"):
+                        # a task that was started before any context existed and keeps
+                        # running beside everything else: it never has a current context
+                        async with create_task_group() as otg:
+                            otg.start_soon(h.outsider, plan["outsider"], name="w:outsider")
+                            if plan.get("bg"):
+                                async with create_task_group() as h.bg_tg:
+                                    await h.run_block(root, None)
+                                    h.at(None, "end")
+                            else:
+                                await h.run_block(root, None)
+                            otg.cancel_scope.cancel()
+                    elif plan.get("bg"):
                         async with create_task_group() as h.bg_tg:
                             await h.run_block(root, None)
                             h.at(None, "end")
@@ -1315,6 +1366,7 @@ def oracle(sim: Sim, plan: dict) -> list[dict]:
         xd = ev["ctx_exit"][5]
         if xd.get("closed") is not True:
             v("C01.closed", "after_exit", f"ctx {c}.closed is {xd.get('closed')} after the block was left")
+            v("C13.closed", "after_exit", f"ctx {c}.closed is {xd.get('closed')} after the block was left")
         if "ctx_enter" in ev and ev["ctx_enter"][5].get("closed") is not False:
             v("C13.closed", "open", f"ctx {c}.closed was {ev['ctx_enter'][5].get('closed')} right after entry")
         if "body_end" in ev and ev["body_end"][5].get("closed") is not False:
@@ -1532,7 +1584,7 @@ class G:
         self.genmix = rng.random() < 0.1
 
     def exc_class(self, base_ok: bool = True) -> str:
-        w = {"SimError": 5, "SimLookup": 2, "group": 1}
+        w = {"SimError": 5, "SimLookup": 2, "SimType": 1.5, "group": 1}
         if base_ok:
             w.update({"SimFatal": 3, "KI": 1, "SE": 1, "bgroup": 0.7})
         return pick(self.rng, w)
@@ -1610,7 +1662,7 @@ class G:
                     and not any(st[0] == "reg" for st in a[1].get("body", ()))
                 ]
                 if len(earlier) >= 1 and rng.random() < 0.25:
-                    body.append(["reg", {"again": rng.choice(earlier), "id": "again", "route": "ctx", "kind": "sync", "body": []}])
+                    body.append(["reg", {"again": rng.choice(earlier), "id": "again", "route": "ctx", "kind": "sync", "body": [], "as_res": rng.random() < 0.5}])
             elif r < 0.7:
                 body.append(rpause(rng))
             elif r < 0.73 and budget[0] > 0 and self.ntask < 6:
@@ -1817,6 +1869,8 @@ def gen_c12(g: G) -> dict:
     out: dict[str, Any] = {"root": root, "probe_every": True}
     if use_bg[0]:
         out["bg"] = True
+    if rng.random() < 0.25:
+        out["outsider"] = [rpause(rng, 0.2) for _ in range(rng.randint(2, 6))]
     if rng.random() < 0.3:
         out["cancel"] = {"frac": round(rng.random(), 4)}
     return out
@@ -1839,6 +1893,7 @@ OPS = (
 
 def gen_c13(g: G) -> dict:
     rng = g.rng
+    use_bg = [False]
 
     def ops(state: str) -> list:
         pool = [o for o in OPS if not (o == "enter" and state == "inactive")]
@@ -1861,6 +1916,10 @@ def gen_c13(g: G) -> dict:
             elif r < 0.55:
                 g.ncb += 1
                 body.append(["race", {"id": f"q{g.ncb}"}])
+            elif r < 0.6:
+                g.ncb += 1
+                body.append(["bglookup", {"id": f"q{g.ncb}", "dur": rng.choice((0.5, 1.0, 3.0)), "gap": [rng.choice((1, 2)), rng.choice((0.0, 0.25))]}])
+                use_bg[0] = True
             elif r < 0.8:
                 cb = g.cb()
                 if cb["kind"] != "sync" and rng.random() < 0.7:
@@ -1927,6 +1986,8 @@ def gen_c13(g: G) -> dict:
         }
         root["body"].append(["par", [{"name": "leak", "body": [["child", leak_block]]}]])
     out: dict[str, Any] = {"root": root}
+    if use_bg[0]:
+        out["bg"] = True
     if rng.random() < 0.15:
         g.nctx += 2
         out["corrupt_root"] = {
@@ -1934,7 +1995,7 @@ def gen_c13(g: G) -> dict:
             "cid": f"x{g.nctx}",
             "how": rng.choice(("clean", "clean", "exception", "base_exception")),
         }
-    if rng.random() < 0.2:
+    if rng.random() < (0.6 if use_bg[0] else 0.2):
         out["cancel"] = {"frac": round(rng.random(), 4)}
     return out
 
